@@ -6,6 +6,13 @@
   which goes through real JSON files).  Python's `json` maps tuples to lists and keeps dict
   order and numbers, so writing and reading a file is the identity on the model's `J` values
   (trusted, DESIGN.md §6).
+
+  Second part: `roundtrip_el_observables` / `roundtrip_seq_observables` (the read-back object
+  compares equal, has the same description, and forges identically — via the forge congruence of
+  BB.Proofs.G6Forge); `el_desc_serialisable` / `seq_desc_serialisable`, `el_desc_lists_segments` /
+  `seq_desc_lists_positions`; and the side conditions `ChanOk` / `SeqOk` derived for everything the
+  public builders produce (`ElBuilt`, `SeqBuilt`, `elBuilt_ok`, `seqBuilt_ok`, `roundtrip_el_built`,
+  `roundtrip_seq_built`).
 -/
 import Std.Data.String.ToInt
 import BB.Proofs.Basic
@@ -13,6 +20,10 @@ import BB.Proofs.DictEq
 import BB.Proofs.Copy
 import BB.Proofs.RoundTrip
 import BB.Model.Describe
+import BB.Proofs.G6Eq
+import BB.Proofs.G6Forge
+import BB.Proofs.G6Desc
+import BB.Properties.C20
 
 namespace BB.C19
 open BB BB.BP
@@ -1162,6 +1173,883 @@ example : SeqOk exSeq (.num 10) := by
       rcases hp with rfl | rfl <;> exact ⟨.num 0, by decide⟩
 
 end sequence
+
+/-! ## second part: the read-back object compares equal, describes and forges like the original -/
+
+section observables
+open BB.Element BB.Sequence BB.C20
+
+theorem get?_map_val {κ α β : Type} [DecidableEq κ] (d : Dict κ α) (g : α → β) (k : κ) :
+    Dict.get? (d.map (fun p => (p.1, g p.2))) k = (Dict.get? d k).map g := by
+  induction d with
+  | nil => rfl
+  | cons p ps ih =>
+    simp only [Dict.get?, List.map_cons, List.find?_cons] at ih ⊢
+    by_cases he : p.1 = k
+    · simp [he]
+    · simp only [he, decide_false]
+      exact ih
+
+/-- helper: mapping the values keeps the keys -/
+theorem keys_map_val {κ α β : Type} (d : Dict κ α) (g : κ × α → β) :
+    Dict.keys (d.map (fun p => (p.1, g p))) = Dict.keys d := by
+  simp [Dict.keys, List.map_map, Function.comp_def]
+
+/-- an entry without its blueprint's sample rate still compares equal to the entry -/
+theorem entEq_stripSR (ent : ChEntry) : entEq (stripSR ent) ent = true ∧ entEq ent (stripSR ent) = true := by
+  obtain ⟨d, fl⟩ := ent
+  cases d with
+  | bp b =>
+    simp only [stripSR, entEq, Bool.and_eq_true, beq_self_eq_true, and_true]
+    exact ⟨(bp_eq_iff _ _).mpr ⟨rfl, rfl, rfl⟩, (bp_eq_iff _ _).mpr ⟨rfl, rfl, rfl⟩⟩
+  | arr a s => exact ⟨entEq_refl _, entEq_refl _⟩
+  | broken => exact ⟨entEq_refl _, entEq_refl _⟩
+
+/-- helper for `roundtrip_el_observables`: giving a sample rate forgets the old one -/
+theorem reSR_stripSR (sr : Option Val) (ent : ChEntry) : reSR sr (stripSR ent) = reSR sr ent := by
+  obtain ⟨d, fl⟩ := ent
+  cases d <;> rfl
+
+/-- `bp.setSR(sr)` on the blueprint of every channel of an element -/
+def giveSR (sr : Val) (e : Element) : Element :=
+  { e with chans := e.chans.map (fun p => (p.1, reSR (some sr) p.2)) }
+
+/-- **the read-back element is observably the original** (`roundtrip_el` with the side conditions
+    of `roundtrip_el`): it compares equal to the original (both ways round), has the same
+    description and the same channels in the same order, and once every blueprint is given the
+    sample rate `sr` the original's channels have, it has the very same channel store — hence the
+    same `getArrays` (waveforms, markers, flags, time axes), the same `validateDurations` verdict,
+    the same duration and number of points -/
+theorem roundtrip_el_observables (chans : Dict Chan ChEntry) (cache : Option (Val × Rat))
+    (hnd : (Dict.keys chans).Nodup) (hok : ∀ p ∈ chans, ChanOk p) (d : J)
+    (hd : (⟨chans, cache⟩ : Element).toDesc = .ok d) :
+    ∃ e', Element.ofDesc d = .ok e' ∧
+      e'.beq ⟨chans, cache⟩ = true ∧ Element.beq ⟨chans, cache⟩ e' = true ∧
+      e'.toDesc = .ok d ∧ e'.channels = Dict.keys chans ∧
+      ∀ sr, (∀ p ∈ chans, reSR (some sr) p.2 = p.2) →
+        (giveSR sr e').chans = chans ∧
+        (∀ t, (giveSR sr e').getArrays t = Element.getArrays ⟨chans, cache⟩ t) ∧
+        (giveSR sr e').validate = Element.validate ⟨chans, cache⟩ ∧
+        (giveSR sr e').duration = Element.duration ⟨chans, cache⟩ ∧
+        (giveSR sr e').points = Element.points ⟨chans, cache⟩ := by
+  obtain ⟨e', he', hdesc, hkeys⟩ := roundtrip_el_desc chans cache hnd hok d hd
+  have hch : e' = ⟨chans.map (fun p => (p.1, stripSR p.2)), none⟩ := by
+    have := roundtrip_el chans cache hnd hok d hd
+    rw [he'] at this
+    exact Except.ok.inj this
+  have hwf : Dict.WF chans := hnd
+  have hwf' : Dict.WF (chans.map (fun p => (p.1, stripSR p.2))) := by
+    unfold Dict.WF; rw [keys_map_val chans (fun p => stripSR p.2)]; exact hnd
+  refine ⟨e', he', ?_, ?_, hdesc, hkeys, ?_⟩
+  · subst hch
+    refine (Dict.eqBy_iff _ hwf').mpr ⟨by simp, fun k v hk => ?_⟩
+    rw [get?_map_val chans stripSR k] at hk
+    cases hg : Dict.get? chans k with
+    | none => rw [hg] at hk; cases hk
+    | some w =>
+      rw [hg] at hk
+      simp only [Option.map_some, Option.some.injEq] at hk
+      subst hk
+      exact ⟨w, rfl, (entEq_stripSR w).1⟩
+  · subst hch
+    refine (Dict.eqBy_iff _ hwf).mpr ⟨by simp, fun k v hk => ?_⟩
+    refine ⟨stripSR v, ?_, (entEq_stripSR v).2⟩
+    show Dict.get? (chans.map (fun p => (p.1, stripSR p.2))) k = _
+    rw [get?_map_val chans stripSR k, hk]
+    rfl
+  · intro sr hsr
+    have hc : (giveSR sr e').chans = chans := by
+      subst hch
+      simp only [giveSR, List.map_map, Function.comp_def, reSR_stripSR]
+      conv => rhs; rw [← List.map_id chans]
+      apply List.map_congr_left
+      intro p hp
+      rw [hsr p hp]
+      rfl
+    have hrel : ElRel (giveSR sr e') ⟨chans, cache⟩ := hc
+    refine ⟨hc, fun t => hrel.getArrays t, ?_, ?_, ?_⟩
+    · rw [hrel.eq_cache]; rfl
+    · rw [hrel.eq_cache]; rfl
+    · rw [hrel.eq_cache]; rfl
+
+/-- non-vacuity: the example element meets the premises, at sample rate 10 -/
+example : (∀ p ∈ exChans, ChanOk p) ∧ (Dict.keys exChans).Nodup ∧ (∀ p ∈ exChans, reSR (some (.num 10)) p.2 = p.2) :=
+  ⟨exChans_ok, by decide, by decide⟩
+
+/-! #### sequences -/
+
+/-- helper for `ofDesc_specs_wf`: an invariant of every step is an invariant of the loop -/
+theorem foldlM_inv {σ α : Type} (P : σ → Prop) (F : σ → α → Except Err σ)
+    (hF : ∀ s x s', P s → F s x = .ok s' → P s') :
+    ∀ (l : List α) (s sf : σ), P s → l.foldlM F s = .ok sf → P sf := by
+  intro l
+  induction l with
+  | nil =>
+    intro s sf hs h
+    simp only [List.foldlM_nil, pure, Except.pure, Except.ok.injEq] at h
+    subst h
+    exact hs
+  | cons x xs ih =>
+    intro s sf hs h
+    simp only [List.foldlM_cons, bind, Except.bind] at h
+    cases hx : F s x with
+    | error e => rw [hx] at h; cases h
+    | ok s1 =>
+      rw [hx] at h
+      exact ih s1 sf (hF s x s1 hs hx) h
+
+/-- helper for `ofDesc_specs_wf`: reading back one channel keeps every AWG setting stored once -/
+theorem chanStep_wf (specs : List (String × J)) (sr : Val) (es es' : Element × Sequence) (kd : String × J)
+    (h : Dict.WF es.2.awgspecs) (hs : chanStep specs sr es kd = .ok es') : Dict.WF es'.2.awgspecs := by
+  unfold chanStep at hs
+  split at hs
+  · cases hs
+  · split at hs
+    · cases hs
+    · split at hs
+      · cases hs
+      · split at hs
+        · cases hs
+        · simp only [Except.ok.injEq] at hs
+          subst hs
+          exact Dict.wf_upsert (Dict.wf_upsert h _ _) _ _
+
+/-- helper for `ofDesc_specs_wf`: reading back one position keeps every AWG setting stored once -/
+theorem posStep_wf (specs : List (String × J)) (sr : Val) (s s' : Sequence) (kd : String × J)
+    (h : Dict.WF s.awgspecs) (hs : posStep specs sr s kd = .ok s') : Dict.WF s'.awgspecs := by
+  unfold posStep at hs
+  split at hs
+  · split at hs
+    · cases hs
+    · rename_i es hes
+      have hwf : Dict.WF es.2.awgspecs :=
+        foldlM_inv (fun (es : Element × Sequence) => Dict.WF es.2.awgspecs) (chanStep specs sr)
+          (fun a x b ha hab => chanStep_wf specs sr a b x ha hab) _ _ _ h hes
+      split at hs
+      · cases hs
+      · split at hs
+        · cases hs
+        · split at hs
+          · split at hs
+            · cases hs
+            · simp only [Except.ok.injEq] at hs
+              subst hs
+              simp only
+              unfold Sequence.addElement
+              split <;> exact hwf
+          · cases hs
+  · cases hs
+
+/-- helper for `ofDesc_specs_wf`: `setdefault` of the remaining settings keeps every setting stored once -/
+theorem restSpecs_wf (specs : List (String × J)) : ∀ (s : Sequence), Dict.WF s.awgspecs → Dict.WF (restSpecs s specs).awgspecs := by
+  induction specs with
+  | nil => intro s h; exact h
+  | cons kv rest ih =>
+    intro s h
+    simp only [restSpecs, List.foldl_cons]
+    split
+    · exact ih s h
+    · exact ih _ (Dict.wf_upsert h _ _)
+
+/-- whatever `sequence_from_description` returns holds every AWG setting once -/
+theorem ofDesc_specs_wf (d : J) (s' : Sequence) (h : Sequence.ofDesc d = .ok s') : Dict.WF s'.awgspecs := by
+  unfold Sequence.ofDesc at h
+  split at h
+  · split at h
+    · split at h
+      · cases h
+      · split at h
+        · cases h
+        · rename_i s0 hs0
+          simp only [Except.ok.injEq] at h
+          subst h
+          refine Dict.wf_upsert (restSpecs_wf _ s0 ?_) _ _
+          exact foldlM_inv (fun (s : Sequence) => Dict.WF s.awgspecs) _
+            (fun a x b ha hab => posStep_wf _ _ a b x ha hab) _ _ _ Dict.wf_nil hs0
+    · cases h
+  · cases h
+
+/-- a sequence as `SeqOk` describes it is well-formed -/
+theorem seqOk_wf (s : Sequence) (sr : Val) (hs : SeqOk s sr) : SeqWF s := by
+  refine ⟨hs.posNodup, hs.specsNodup, by unfold Dict.WF; rw [hs.seqKeys]; exact hs.posNodup, ?_⟩
+  intro en hen
+  obtain ⟨pe, hpe, rfl⟩ := List.mem_map.mp hen
+  obtain ⟨chans, m, hent, _, hnd, _⟩ := hs.entries pe hpe
+  rw [hent]
+  exact hnd
+
+/-- helper for `roundtrip_seq_observables`: every entry agrees with itself up to caches -/
+theorem entRel_refl (x : Entry) : EntRel x x := by
+  cases x with
+  | el e => exact rfl
+  | sub s => exact ⟨Dict.Rel.refl _ _ (fun _ _ => rfl), fun _ => rfl, fun _ => rfl⟩
+
+/-- **the read-back sequence is observably the original**: it compares equal to the original (both
+    ways round), forges to the very same result for every combination of `apply_delays`,
+    `apply_filters` and `includetime` (arrays of every position and channel, attached filters,
+    sequencing — or the same exception), and its own description is the description it was read
+    from except that the AWG settings may be listed in a different order (`J.DictEq`: equal as
+    Python compares dicts; spelled out: the same position fields, settings a permutation) -/
+theorem roundtrip_seq_observables (s : Sequence) (sr : Val) (hs : SeqOk s sr) (d : J) (hd : s.toDesc = .ok d) :
+    ∃ s', Sequence.ofDesc d = .ok s' ∧
+      s'.beq s = true ∧ s.beq s' = true ∧
+      (∀ dl f t, s'.forge dl f t = s.forge dl f t) ∧
+      (∃ d', s'.toDesc = .ok d' ∧ J.DictEq d' d ∧
+        ∃ fields, d = .obj (fields ++ [("awgspecs", awgspecsJ s.awgspecs)]) ∧
+          d' = .obj (fields ++ [("awgspecs", awgspecsJ s'.awgspecs)]) ∧ s'.awgspecs.Perm s.awgspecs) := by
+  obtain ⟨s', hs', hdata, hqk, hq, hsp, hname⟩ := roundtrip_seq s sr hs d hd
+  have hwf := seqOk_wf s sr hs
+  have hspwf : Dict.WF s'.awgspecs := ofDesc_specs_wf d s' hs'
+  have hqwf : Dict.WF s'.sequencing := by unfold Dict.WF; rw [hqk]; exact hwf.sequencing
+  have hlq : LookEq s'.sequencing s.sequencing := by
+    intro k
+    by_cases hk : k ∈ Dict.keys s.sequencing
+    · rw [hs.seqKeys] at hk
+      obtain ⟨pe, hpe, rfl⟩ := List.mem_map.mp hk
+      exact hq pe hpe
+    · have h1 := (Dict.get?_eq_none_iff s.sequencing k).mpr hk
+      have h2 := (Dict.get?_eq_none_iff s'.sequencing k).mpr (by rw [hqk]; exact hk)
+      rw [h1, h2]
+  have hwf' : SeqWF s' := ⟨by rw [hdata]; exact hwf.data, hspwf, hqwf, by rw [hdata]; exact hwf.entries⟩
+  have hbeq : s'.beq s = true := by
+    rw [seq_eq_iff]
+    refine ⟨?_, Dict.eqBy_of_get?_eq hspwf hwf.specs hsp, Dict.eqBy_of_get?_eq hqwf hwf.sequencing hlq⟩
+    rw [hdata]
+    exact Dict.eqBy_refl_mem _ hwf.data (fun x hx => entry_eq_refl_wf x (hwf.entries x hx))
+  have hperm : s'.awgspecs.Perm s.awgspecs :=
+    Dict.eqBy_beq_perm hspwf hwf.specs (Dict.eqBy_of_get?_eq hspwf hwf.specs hsp)
+  refine ⟨s', hs', hbeq, seq_eq_symm s' s hwf' hwf hbeq, ?_, ?_⟩
+  · intro dl f t
+    apply Sequence.forge_congr s' s ?_ hsp hlq
+    rw [hdata]
+    exact Dict.Rel.refl _ _ (fun x _ => entRel_refl x)
+  · unfold Sequence.toDesc at hd ⊢
+    have hfields : s'.data.mapM (posField s') = s.data.mapM (posField s) := by
+      rw [hdata]
+      apply mapM_congr_mem
+      intro pe hpe
+      unfold posField seqnJ
+      rw [hq pe hpe]
+    rw [hfields]
+    cases hm : s.data.mapM (posField s) with
+    | error er => rw [hm] at hd; cases hd
+    | ok fields =>
+      rw [hm] at hd
+      simp only [Except.ok.injEq] at hd
+      subst hd
+      refine ⟨_, rfl, ?_, fields, rfl, rfl, hperm⟩
+      refine J.DictEq.of_forall2 (l2' := fields ++ [("awgspecs", awgspecsJ s.awgspecs)])
+        (forall2_append (forall2_refl _ _ (fun _ _ => ⟨rfl, J.DictEq.refl _⟩))
+          (List.Forall₂.cons ⟨rfl, ?_⟩ List.Forall₂.nil)) (List.Perm.refl _)
+      unfold awgspecsJ
+      exact J.DictEq.of_perm (hperm.map _)
+
+/-- non-vacuity of `roundtrip_seq_observables`: the example sequence meets `SeqOk` (shown above)
+    and has a description -/
+example : exSeq.toDesc.toOption.isSome = true := by decide +kernel
+
+/-- … and forging it succeeds, so the forge equality is about arrays, not about a common error -/
+example : (exSeq.forge true true false).toOption.isSome = true := by decide +kernel
+
+end observables
+
+/-! ### descriptions of elements and sequences: JSON-serialisable, every segment listed in order -/
+
+section serialisable
+open BB.Element BB.Sequence
+
+/-- every argument and duration of the channel's blueprint (if it holds one) is a number, a string
+    or None — what the built-in shapes take -/
+def ChanPlain (ent : ChEntry) : Prop :=
+  ∀ b, ent.data = .bp b → ∀ s ∈ b.segs, (∀ v ∈ s.args, Val.plain v = true) ∧ Val.plain s.dur = true
+
+/-- an AWG setting holding numbers, strings or None only -/
+def SpecPlain : Spec → Prop
+  | .val v => Val.plain v = true
+  | .filt f => Val.plain f.f_cut = true ∧ Val.plain f.tau = true
+
+/-- helper for `el_desc_serialisable`: a flags list is serialisable -/
+theorem flagsJ_ser (fl : List Nat) : (flagsJ fl).serialisable = true := by
+  unfold flagsJ
+  simp only [J.serialisable]
+  induction fl with
+  | nil => rfl
+  | cons n ns ih => simp [J.serList, J.serialisable, ih]
+
+/-- C19 "the description is always JSON-serialisable", for one channel entry -/
+theorem chanDesc_ser (ent : ChEntry) (h : ChanPlain ent) (d : J) (hd : chanDesc ent = .ok d) :
+    d.serialisable = true := by
+  obtain ⟨dat, fl⟩ := ent
+  cases dat with
+  | bp b =>
+    have hb := desc_serialisable b (h b rfl)
+    cases fl with
+    | none =>
+      rw [chanDesc_plain] at hd
+      cases hd
+      exact hb
+    | some fl =>
+      rw [chanDesc_flags b fl _ (desc_shape b)] at hd
+      cases hd
+      rw [desc_shape] at hb
+      simp only [J.serialisable] at hb ⊢
+      rw [serFields_append, hb]
+      simp [J.serFields, flagsJ_ser]
+  | arr a s =>
+    cases fl with
+    | none => simp only [chanDesc] at hd; cases hd; rfl
+    | some _ => simp only [chanDesc] at hd; cases hd
+  | broken =>
+    cases fl with
+    | none => simp only [chanDesc] at hd; cases hd; rfl
+    | some _ => simp only [chanDesc] at hd; cases hd
+
+/-- helper for `el_desc_serialisable`: fields with serialisable values are serialisable -/
+theorem serFields_of_mapM {α : Type} (F : α → Except Err (String × J)) :
+    ∀ (l : List α) (fs : List (String × J)), l.mapM F = .ok fs →
+      (∀ x ∈ l, ∀ kv, F x = .ok kv → kv.2.serialisable = true) → J.serFields fs = true := by
+  intro l
+  induction l with
+  | nil =>
+    intro fs h _
+    rw [mapM_nil_ok_iff] at h
+    subst h
+    rfl
+  | cons a t ih =>
+    intro fs h hall
+    obtain ⟨b, bs, hb, hbs, rfl⟩ := (mapM_cons_ok_iff F a t fs).mp h
+    obtain ⟨k, v⟩ := b
+    simp only [J.serFields, Bool.and_eq_true]
+    exact ⟨hall a (by simp) (k, v) hb, ih bs hbs (fun x hx => hall x (by simp [hx]))⟩
+
+/-- **`Element.description` is JSON-serialisable** whenever it exists and the blueprint channels
+    hold plain values (any channel names, with or without flags, raw-array channels included) -/
+theorem el_desc_serialisable (e : Element) (h : ∀ p ∈ e.chans, ChanPlain p.2) (d : J) (hd : e.toDesc = .ok d) :
+    d.serialisable = true := by
+  unfold Element.toDesc at hd
+  cases hm : e.chans.mapM chanField with
+  | error er => rw [hm] at hd; cases hd
+  | ok fields =>
+    rw [hm] at hd
+    cases hd
+    simp only [J.serialisable]
+    refine serFields_of_mapM chanField _ _ hm ?_
+    intro p hp kv hkv
+    unfold chanField at hkv
+    cases hc : chanDesc p.2 with
+    | error er => rw [hc] at hkv; cases hkv
+    | ok dd =>
+      rw [hc] at hkv
+      cases hkv
+      exact chanDesc_ser p.2 (h p hp) dd hc
+
+/-- helper for `seq_desc_serialisable`: a sequencing entry is serialisable -/
+theorem seqSetJ_ser (q : SeqSet) : (seqSetJ q).serialisable = true := by
+  simp [seqSetJ, J.serialisable, J.serFields, J.ofInt]
+
+/-- helper for `seq_desc_serialisable`: a plain AWG setting is serialisable -/
+theorem specJ_ser (v : Spec) (h : SpecPlain v) : (specJ v).serialisable = true := by
+  cases v with
+  | val v => exact ofVal_ser v h
+  | filt f => simp [specJ, J.serialisable, J.serFields, J.ofInt, ofVal_ser _ h.1, ofVal_ser _ h.2]
+
+/-- helper for `seq_desc_serialisable`: plain AWG settings are serialisable -/
+theorem awgspecsJ_ser (specs : Dict String Spec) (h : ∀ kv ∈ specs, SpecPlain kv.2) :
+    (awgspecsJ specs).serialisable = true := by
+  unfold awgspecsJ
+  simp only [J.serialisable]
+  induction specs with
+  | nil => rfl
+  | cons kv rest ih =>
+    obtain ⟨k, v⟩ := kv
+    simp only [List.map_cons, J.serFields, Bool.and_eq_true]
+    exact ⟨specJ_ser v (h (k, v) (by simp)), ih (fun p hp => h p (by simp [hp]))⟩
+
+/-- the common shape: positions with serialisable contents and sequencing, plain settings -/
+theorem toDescG_ser {α : Type} (desc : α → Except Err J) (seqn : Int → J) (data : Dict Int α) (specs : Dict String Spec)
+    (hdesc : ∀ x ∈ Dict.vals data, ∀ d, desc x = .ok d → d.serialisable = true)
+    (hseqn : ∀ k, (seqn k).serialisable = true) (hspecs : ∀ kv ∈ specs, SpecPlain kv.2)
+    (d : J) (hd : toDescG desc seqn data specs = .ok d) : d.serialisable = true := by
+  unfold toDescG at hd
+  cases hm : data.mapM (posFieldG desc seqn) with
+  | error er => rw [hm] at hd; cases hd
+  | ok fields =>
+    rw [hm] at hd
+    cases hd
+    simp only [J.serialisable, serFields_append, Bool.and_eq_true]
+    refine ⟨serFields_of_mapM _ _ _ hm ?_, by simp [J.serFields, awgspecsJ_ser specs hspecs]⟩
+    intro pe hpe kv hkv
+    unfold posFieldG at hkv
+    cases hc : desc pe.2 with
+    | error er => rw [hc] at hkv; cases hkv
+    | ok dd =>
+      rw [hc] at hkv
+      cases hkv
+      simp [J.serialisable, J.serFields, hseqn, hdesc pe.2 (List.mem_map.mpr ⟨pe, hpe, rfl⟩) dd hc]
+
+/-- every blueprint channel of every element of the entry holds plain values -/
+def EntryPlain : Entry → Prop
+  | .el e => ∀ p ∈ e.chans, ChanPlain p.2
+  | .sub s => (∀ e ∈ Dict.vals s.data, ∀ p ∈ e.chans, ChanPlain p.2) ∧ ∀ kv ∈ s.awgspecs, SpecPlain kv.2
+
+/-- C19 "the description is always JSON-serialisable", for what sits at one position (element or subsequence) -/
+theorem entryDesc_ser (x : Entry) (h : EntryPlain x) (d : J) (hd : entryDesc x = .ok d) : d.serialisable = true := by
+  cases x with
+  | el e => exact el_desc_serialisable e h d hd
+  | sub s =>
+    simp only [entryDesc] at hd
+    rw [subToDesc_eq_G] at hd
+    refine toDescG_ser _ _ _ _ (fun e he dd hdd => el_desc_serialisable e (h.1 e he) dd hdd) ?_ h.2 d hd
+    intro k
+    unfold subSeqnJ
+    split
+    · exact seqSetJ_ser _
+    · rfl
+
+/-- **`Sequence.description` is JSON-serialisable** whenever it exists, the blueprint channels
+    hold plain values and the AWG settings are numbers, strings or None (subsequences included) -/
+theorem seq_desc_serialisable (s : Sequence) (h : ∀ en ∈ Dict.vals s.data, EntryPlain en)
+    (hspecs : ∀ kv ∈ s.awgspecs, SpecPlain kv.2) (d : J) (hd : s.toDesc = .ok d) : d.serialisable = true := by
+  rw [toDesc_eq_G] at hd
+  refine toDescG_ser _ _ _ _ (fun x hx dd hdd => entryDesc_ser x (h x hx) dd hdd) ?_ hspecs d hd
+  intro k
+  unfold seqnJ
+  split
+  · exact seqSetJ_ser _
+  · rfl
+
+/-- **`Element.description` lists every channel in order and, for a blueprint channel, every
+    segment in order**: the `i`-th field is keyed by the `i`-th channel; if that channel holds a
+    blueprint the field is an object whose `j`-th entry is `segment_{j+1:02d}` describing the
+    blueprint's `j`-th segment (name, function, arguments, duration) -/
+theorem el_desc_lists_segments (e : Element) (d : J) (hd : e.toDesc = .ok d) :
+    ∃ fields, d = .obj fields ∧ fields.length = e.chans.length ∧
+      ∀ i (hi : i < e.chans.length) (b : BP), (e.chans[i]).2.data = .bp b →
+        ∃ l, fields[i]? = some ((e.chans[i]).1.toStr, .obj l) ∧
+          ∀ j (hj : j < b.segs.length), l[j]? = some (segKey (j + 1), segRecord b.segs[j]) := by
+  unfold Element.toDesc at hd
+  cases hm : e.chans.mapM chanField with
+  | error er => rw [hm] at hd; cases hd
+  | ok fields =>
+    rw [hm] at hd
+    cases hd
+    have hlen := mapM_ok_length _ _ _ hm
+    refine ⟨fields, rfl, hlen, fun i hi b hb => ?_⟩
+    have hfi := mapM_ok_getElem _ _ _ hm i hi (by omega)
+    generalize e.chans[i] = p at hb hfi ⊢
+    obtain ⟨ch, dat, fl⟩ := p
+    simp only at hb
+    subst hb
+    have hseg : ∀ (extra : List (String × J)) j (hj : j < b.segs.length),
+        (fieldsX b extra)[j]? = some (segKey (j + 1), segRecord b.segs[j]) := by
+      intro extra j hj
+      unfold fieldsX
+      rw [List.getElem?_append_left (by simpa using hj)]
+      exact desc_segment_at b j hj
+    obtain ⟨l, hl⟩ : ∃ l, b.toDesc = .obj l := ⟨_, desc_shape b⟩
+    cases fl with
+    | none =>
+      simp only [chanField, chanDesc_plain] at hfi
+      refine ⟨fieldsX b [], ?_, hseg []⟩
+      rw [List.getElem?_eq_getElem (by omega), ← Except.ok.inj hfi, hl, ← fieldsX_eq b [] l hl, List.append_nil]
+    | some fl =>
+      simp only [chanField, chanDesc_flags b fl l hl] at hfi
+      refine ⟨fieldsX b [("flags", flagsJ fl)], ?_, hseg _⟩
+      rw [List.getElem?_eq_getElem (by omega), ← Except.ok.inj hfi, fieldsX_eq b _ l hl]
+
+/-- **`Sequence.description` lists every position in store order**: the `i`-th field is keyed by
+    the `i`-th stored position and holds the description of what sits there (for an element:
+    `Element.description`, which lists every segment of every channel — `el_desc_lists_segments`)
+    and the position's sequencing entry; the AWG settings come last -/
+theorem seq_desc_lists_positions (s : Sequence) (d : J) (hd : s.toDesc = .ok d) :
+    ∃ fields, d = .obj (fields ++ [("awgspecs", awgspecsJ s.awgspecs)]) ∧ fields.length = s.data.length ∧
+      ∀ i (hi : i < s.data.length), ∃ chd, entryDesc (s.data[i]).2 = .ok chd ∧
+        fields[i]? = some (toString (s.data[i]).1, .obj [("channels", chd), ("sequencing", seqnJ s (s.data[i]).1)]) := by
+  rw [toDesc_eq_G] at hd
+  unfold toDescG at hd
+  cases hm : s.data.mapM (posFieldG entryDesc (seqnJ s)) with
+  | error er => rw [hm] at hd; cases hd
+  | ok fields =>
+    rw [hm] at hd
+    cases hd
+    have hlen := mapM_ok_length _ _ _ hm
+    refine ⟨fields, rfl, hlen, fun i hi => ?_⟩
+    have hfi := mapM_ok_getElem _ _ _ hm i hi (by omega)
+    unfold posFieldG at hfi
+    cases hc : entryDesc (s.data[i]).2 with
+    | error er => rw [hc] at hfi; cases hfi
+    | ok chd =>
+      rw [hc] at hfi
+      refine ⟨chd, rfl, ?_⟩
+      rw [List.getElem?_eq_getElem (by omega), ← Except.ok.inj hfi]
+
+/-- non-vacuity: the example sequence holds plain values only -/
+example : (∀ en ∈ Dict.vals exSeq.data, EntryPlain en) ∧ (∀ kv ∈ exSeq.awgspecs, SpecPlain kv.2) := by
+  constructor
+  · intro en hen
+    simp only [exSeq, Dict.vals, List.map_cons, List.map_nil, List.mem_cons, List.not_mem_nil, or_false, or_self] at hen
+    subst hen
+    intro p hp b hb s hs
+    simp only [exChans, List.mem_cons, List.not_mem_nil, or_false] at hp
+    rcases hp with rfl | rfl <;>
+    · simp only [ChData.bp.injEq] at hb
+      subst hb
+      simp only [exBP, List.mem_cons, List.not_mem_nil, or_false] at hs
+      rcases hs with rfl | rfl <;> exact ⟨by decide, by decide⟩
+  · intro kv hkv
+    simp only [exSeq, List.mem_cons, List.not_mem_nil, or_false] at hkv
+    rcases hkv with rfl | rfl | rfl | rfl | rfl | rfl | rfl <;> simp [SpecPlain, Val.plain]
+
+end serialisable
+
+/-! ### the side conditions `ChanOk` / `SeqOk` hold for everything the public builders produce -/
+
+section builders
+open BB.Element BB.Sequence BB.C20
+
+/-- helper for `elBuilt_ok`: `addFlags` stores numbers 0..4 -/
+theorem flagToken_le (v : Val) (n : Nat) (h : flagToken? v = some n) : n ≤ 4 := by
+  cases v with
+  | num q =>
+    simp only [flagToken?] at h
+    split at h
+    · rename_i hc
+      have hmem : q.num = 0 ∨ q.num = 1 ∨ q.num = 2 ∨ q.num = 3 ∨ q.num = 4 := by
+        simpa [Gen.flagAllowedInt] using hc.2
+      rcases hmem with e | e | e | e | e <;> rw [e] at h <;> simp [Gen.flagAliasInt, List.lookup] at h <;> omega
+    · cases h
+  | str s =>
+    simp only [flagToken?] at h
+    split at h
+    · rename_i hc
+      have hmem : s = "" ∨ s = "H" ∨ s = "L" ∨ s = "T" ∨ s = "P" := by
+        simpa [Gen.flagAllowedStr] using hc
+      rcases hmem with e | e | e | e | e <;> subst e <;> simp [Gen.flagAliasStr, List.lookup] at h <;> omega
+    · cases h
+  | none => simp [flagToken?] at h
+  | opq _ => simp [flagToken?] at h
+
+/-- helper for `elBuilt_ok`: what a successful `mapM` in `Option` returns -/
+theorem optMapM_spec {α β : Type} (f : α → Option β) :
+    ∀ (l : List α) (r : List β), l.mapM f = some r → r.length = l.length ∧ ∀ y ∈ r, ∃ x ∈ l, f x = some y := by
+  intro l
+  induction l with
+  | nil =>
+    intro r h
+    simp only [List.mapM_nil, pure, Option.some.injEq] at h
+    subst h
+    exact ⟨rfl, by simp⟩
+  | cons a t ih =>
+    intro r h
+    rw [List.mapM_cons] at h
+    cases hfa : f a with
+    | none => rw [hfa] at h; simp [bind] at h
+    | some b =>
+      cases ht : t.mapM f with
+      | none => rw [hfa, ht] at h; simp [bind] at h
+      | some bs =>
+        rw [hfa, ht] at h
+        simp only [bind, Option.bind, pure, Option.some.injEq] at h
+        subst h
+        obtain ⟨h1, h2⟩ := ih bs ht
+        refine ⟨by simp [h1], ?_⟩
+        intro y hy
+        rcases List.mem_cons.mp hy with rfl | hy
+        · exact ⟨a, by simp, hfa⟩
+        · obtain ⟨x, hx, hfx⟩ := h2 y hy
+          exact ⟨x, by simp [hx], hfx⟩
+
+/-- helper for `elBuilt_ok`: the entries after `d[k] = v` are `(k, v)` and old entries -/
+theorem mem_upsert {κ α : Type} [DecidableEq κ] (d : Dict κ α) (k : κ) (v : α) (p : κ × α)
+    (h : p ∈ Dict.upsert d k v) : p = (k, v) ∨ p ∈ d := by
+  induction d with
+  | nil => simp [Dict.upsert] at h; exact Or.inl h
+  | cons q rest ih =>
+    obtain ⟨k', v'⟩ := q
+    unfold Dict.upsert at h
+    split at h
+    · rcases List.mem_cons.mp h with h | h
+      · exact Or.inl h
+      · exact Or.inr (by simp [h])
+    · rcases List.mem_cons.mp h with h | h
+      · exact Or.inr (by simp [h])
+      · rcases ih h with h | h
+        · exact Or.inl h
+        · exact Or.inr (by simp [h])
+
+/-- **elements as the public API builds them** over integer channel numbers: from the empty element
+    by `addBluePrint` (of any blueprint obtained through the public blueprint API — `Hist` — over
+    the built-in shapes) and `addFlags`, in any order, accepted or refused -/
+inductive ElBuilt : Element → Prop
+  | empty : ElBuilt {}
+  | addBluePrint (e : Element) (n : Int) (h : Hist) (hok : ∀ s ∈ h.eval.segs, SegOk s) :
+      ElBuilt e → ElBuilt (e.addBluePrint (.int n) h.eval).st
+  | addFlags (e : Element) (ch : Chan) (fl : List Val) : ElBuilt e → ElBuilt (e.addFlags ch fl).st
+
+/-- **`ChanOk` is a reachable invariant**: every channel of a built element meets the side
+    condition of `roundtrip_el`, and no channel is listed twice -/
+theorem elBuilt_ok (e : Element) (h : ElBuilt e) : (Dict.keys e.chans).Nodup ∧ ∀ p ∈ e.chans, ChanOk p := by
+  induction h with
+  | empty => exact ⟨List.nodup_nil, by intro p hp; simp at hp⟩
+  | addBluePrint e n h hok _ ih =>
+    unfold Element.addBluePrint
+    split
+    · exact ih
+    · rename_i hne
+      refine ⟨Dict.wf_upsert ih.1 _ _, fun p hp => ?_⟩
+      rcases mem_upsert _ _ _ _ hp with rfl | hp
+      · refine ⟨⟨n, rfl⟩, h.eval.copy, rfl, inv_copy _, inv2_copy (inv2_reachable h), ?_, ?_, ?_⟩
+        · rw [copy_reachable]; exact hok
+        · rw [copy_reachable]
+          intro he
+          rw [he] at hne
+          exact hne rfl
+        · intro fl hfl; cases hfl
+      · exact ih.2 p hp
+  | addFlags e ch fl _ ih =>
+    unfold Element.addFlags
+    split
+    · exact ih
+    · rename_i hlen
+      split
+      · exact ih
+      · rename_i fl' hfl'
+        split
+        · exact ih
+        · rename_i ent hent
+          refine ⟨Dict.wf_upsert ih.1 _ _, fun p hp => ?_⟩
+          rcases mem_upsert _ _ _ _ hp with rfl | hp
+          · obtain ⟨hint, b, hdata, h1, h2, hok, hne, _⟩ := ih.2 (ch, ent) (Dict.mem_of_get?_eq_some ch ent hent)
+            refine ⟨hint, b, hdata, h1, h2, hok, hne, ?_⟩
+            intro fl2 hfl2
+            simp only [Option.some.injEq] at hfl2
+            subst hfl2
+            obtain ⟨hl, hall⟩ := optMapM_spec flagToken? fl fl' hfl'
+            refine ⟨?_, fun n hn => ?_⟩
+            · rw [hl]
+              simp only [Gen.flagsLenBad, decide_eq_true_eq, ne_eq, Decidable.not_not] at hlen
+              exact_mod_cast hlen
+            · obtain ⟨v, _, hv⟩ := hall n hn
+              exact flagToken_le v n hv
+          · exact ih.2 p hp
+
+/-- **sequences as the public API builds them**: from the empty sequence by `addElement` (of a
+    built element), `setSR`, `setChannelAmplitude/Offset/Delay`, `setChannelFilterCompensation`
+    and the `setSequencing…` setters, in any order, accepted or refused -/
+inductive SeqBuilt : Sequence → Prop
+  | empty : SeqBuilt {}
+  | addElement (s : Sequence) (pos : Int) (e : Element) : SeqBuilt s → ElBuilt e → SeqBuilt (s.addElement pos e).st
+  | setSR (s : Sequence) (v : Val) : SeqBuilt s → SeqBuilt (s.setSR v)
+  | setChannelAmplitude (s : Sequence) (ch : Chan) (v : Val) : SeqBuilt s → SeqBuilt (s.setChannelAmplitude ch v)
+  | setChannelOffset (s : Sequence) (ch : Chan) (v : Val) : SeqBuilt s → SeqBuilt (s.setChannelOffset ch v)
+  | setChannelDelay (s : Sequence) (ch : Chan) (v : Val) : SeqBuilt s → SeqBuilt (s.setChannelDelay ch v)
+  | setChannelFilterCompensation (s : Sequence) (ch : Chan) (kind : String) (order : Int) (isInt : Bool) (fc tau : Val) :
+      SeqBuilt s → SeqBuilt (s.setChannelFilterCompensation ch kind order isInt fc tau).st
+  | setSequencing (s : Sequence) (pos : Int) (f : SeqSet → SeqSet) : SeqBuilt s → SeqBuilt (s.setSequencing pos f).st
+
+/-- the part of `SeqOk` that every built sequence has -/
+structure SeqInv (s : Sequence) : Prop where
+  posNodup : (Dict.keys s.data).Nodup
+  seqKeys : Dict.keys s.sequencing = Dict.keys s.data
+  specsNodup : (Dict.keys s.awgspecs).Nodup
+  noName : s.name = ""
+  entries : ∀ pe ∈ s.data, ∃ (chans : Dict Chan ChEntry) (m : Val × Rat),
+    pe.2 = .el ⟨chans, some m⟩ ∧ Element.validate ⟨chans, none⟩ = .ok m ∧ (Dict.keys chans).Nodup ∧
+    ∀ p ∈ chans, ChanOk p
+
+/-- helper for `seqBuilt_inv`: setting an AWG setting keeps the invariant -/
+theorem seqInv_setSpec (s : Sequence) (h : SeqInv s) (k : String) (v : Spec) : SeqInv (s.setSpec k v) :=
+  ⟨h.posNodup, h.seqKeys, Dict.wf_upsert h.specsNodup _ _, h.noName, h.entries⟩
+
+/-- C19 side conditions derived: every sequence built through the public API has the structural part of `SeqOk` -/
+theorem seqBuilt_inv (s : Sequence) (h : SeqBuilt s) : SeqInv s := by
+  induction h with
+  | empty => exact ⟨List.nodup_nil, rfl, List.nodup_nil, rfl, by intro pe hpe; simp at hpe⟩
+  | addElement s pos e _ he ih =>
+    unfold Sequence.addElement
+    split
+    · exact ih
+    · rename_i m hm
+      obtain ⟨hnd, hok⟩ := elBuilt_ok e he
+      refine ⟨Dict.wf_upsert ih.posNodup _ _, ?_, ih.specsNodup, ih.noName, ?_⟩
+      · simp only
+        by_cases hk : pos ∈ Dict.keys s.data
+        · rw [Dict.keys_upsert_of_mem _ _ _ hk, Dict.keys_upsert_of_mem _ _ _ (by rw [ih.seqKeys]; exact hk), ih.seqKeys]
+        · rw [Dict.keys_upsert_of_not_mem _ _ _ hk, Dict.keys_upsert_of_not_mem _ _ _ (by rw [ih.seqKeys]; exact hk),
+            ih.seqKeys]
+      · intro pe hpe
+        rcases mem_upsert _ _ _ _ hpe with rfl | hpe
+        · exact ⟨e.chans, m, rfl, hm, hnd, hok⟩
+        · exact ih.entries pe hpe
+  | setSR s v _ ih => exact seqInv_setSpec s ih _ _
+  | setChannelAmplitude s ch v _ ih => exact seqInv_setSpec s ih _ _
+  | setChannelOffset s ch v _ ih => exact seqInv_setSpec s ih _ _
+  | setChannelDelay s ch v _ ih => exact seqInv_setSpec s ih _ _
+  | setChannelFilterCompensation s ch kind order isInt fc tau _ ih =>
+    unfold SeqCore.setChannelFilterCompensation
+    split
+    · exact ih
+    · split
+      · exact ih
+      · split
+        · exact ih
+        · exact seqInv_setSpec s ih _ _
+  | setSequencing s pos f _ ih =>
+    unfold SeqCore.setSequencing
+    split
+    · exact ih
+    · rename_i q hq
+      refine ⟨ih.posNodup, ?_, ih.specsNodup, ih.noName, ih.entries⟩
+      simp only
+      rw [Dict.keys_upsert_of_mem _ _ _ ((Dict.get?_isSome_iff _ _).mp (by rw [hq]; rfl)), ih.seqKeys]
+
+/-- helper for `seqBuilt_ok`: a channel blueprint that has sample rate `sr` is unchanged by being given `sr` -/
+theorem reSR_of_chanSR (p : Chan × ChEntry) (hp : ChanOk p) (sr : Val) (h : chanSR p.2 = .ok sr) :
+    reSR (some sr) p.2 = p.2 := by
+  obtain ⟨ch, dat, fl⟩ := p
+  obtain ⟨_, b, hdata, _⟩ := hp
+  simp only at hdata
+  subst hdata
+  simp only [chanSR, Except.ok.injEq] at h
+  obtain ⟨segs, m1, m2, SR⟩ := b
+  simp only at h
+  subst h
+  rfl
+
+/-- **`SeqOk` is derived, not assumed**: a sequence built through the public API meets the side
+    condition of `roundtrip_seq` as soon as the three things a user must do before
+    `outputForAWGFile` anyway are done — the sequence has its sample rate, every channel blueprint
+    has that sample rate, and every channel has its amplitude and offset set (all decidable) -/
+theorem seqBuilt_ok (s : Sequence) (hb : SeqBuilt s) (sr : Val)
+    (hsr : Dict.get? s.awgspecs "SR" = some (.val sr))
+    (hch : ∀ pe ∈ s.data, ∀ e, pe.2 = .el e → ∀ p ∈ e.chans, chanSR p.2 = .ok sr ∧
+      (∃ a, Dict.get? s.awgspecs (keyOf p.1 "amplitude") = some (.val a)) ∧
+      (∃ o, Dict.get? s.awgspecs (keyOf p.1 "offset") = some (.val o))) :
+    SeqOk s sr := by
+  have hi := seqBuilt_inv s hb
+  refine ⟨hi.posNodup, hi.seqKeys, hi.specsNodup, hsr, hi.noName, ?_⟩
+  intro pe hpe
+  obtain ⟨chans, m, hent, hval, hnd, hok⟩ := hi.entries pe hpe
+  refine ⟨chans, m, hent, hval, hnd, fun p hp => ?_⟩
+  obtain ⟨h1, h2, h3⟩ := hch pe hpe _ hent p hp
+  exact ⟨hok p hp, reSR_of_chanSR p (hok p hp) sr h1, h2, h3⟩
+
+/-- **the element round trip without assumed side conditions**: for every element built through
+    the public API (`ElBuilt`) that has a description -/
+theorem roundtrip_el_built (e : Element) (hb : ElBuilt e) (d : J) (hd : e.toDesc = .ok d) :
+    ∃ e', Element.ofDesc d = .ok e' ∧ e'.beq e = true ∧ e.beq e' = true ∧ e'.toDesc = .ok d ∧
+      e'.channels = e.channels ∧
+      ∀ sr, (∀ p ∈ e.chans, chanSR p.2 = .ok sr) → ∀ t, (giveSR sr e').getArrays t = e.getArrays t := by
+  obtain ⟨hnd, hok⟩ := elBuilt_ok e hb
+  obtain ⟨e', h1, h2, h3, h4, h5, h6⟩ := roundtrip_el_observables e.chans e.cache hnd hok d hd
+  exact ⟨e', h1, h2, h3, h4, h5, fun sr hsr t =>
+    ((h6 sr (fun p hp => reSR_of_chanSR p (hok p hp) sr (hsr p hp))).2.1 t)⟩
+
+/-- **the sequence round trip without assumed side conditions**: for every sequence built through
+    the public API (`SeqBuilt`) with sample rate, amplitudes and offsets set -/
+theorem roundtrip_seq_built (s : Sequence) (hb : SeqBuilt s) (sr : Val)
+    (hsr : Dict.get? s.awgspecs "SR" = some (.val sr))
+    (hch : ∀ pe ∈ s.data, ∀ e, pe.2 = .el e → ∀ p ∈ e.chans, chanSR p.2 = .ok sr ∧
+      (∃ a, Dict.get? s.awgspecs (keyOf p.1 "amplitude") = some (.val a)) ∧
+      (∃ o, Dict.get? s.awgspecs (keyOf p.1 "offset") = some (.val o)))
+    (d : J) (hd : s.toDesc = .ok d) :
+    ∃ s', Sequence.ofDesc d = .ok s' ∧ s'.beq s = true ∧ s.beq s' = true ∧
+      (∀ dl f t, s'.forge dl f t = s.forge dl f t) ∧ ∃ d', s'.toDesc = .ok d' ∧ J.DictEq d' d := by
+  obtain ⟨s', h1, h2, h3, h4, d', h5, h6, _⟩ := roundtrip_seq_observables s sr (seqBuilt_ok s hb sr hsr hch) d hd
+  exact ⟨s', h1, h2, h3, h4, d', h5, h6⟩
+
+/-! non-vacuity: a sequence built with the public operations only -/
+
+/-- non-vacuity: a blueprint built with `insertSegment` twice and `setSR` -/
+def builtHist : Hist :=
+  .op (.op (.op .empty (.insert 0 exFn [.num 0, .num 1] (.num 1) .none)) (.insert 1 exFn [.num 1, .num 0] (.num 2) (.str "down")))
+    (.setSR (.num 10))
+
+/-- non-vacuity: its two segments -/
+theorem builtHist_segs : builtHist.eval.segs =
+    [{ name := "ramp", fn := exFn, args := [.num 0, .num 1], dur := .num 1 },
+     { name := "down", fn := exFn, args := [.num 1, .num 0], dur := .num 2 }] := by decide +kernel
+
+/-- non-vacuity: … are built-in shapes -/
+theorem builtHist_ok : ∀ s ∈ builtHist.eval.segs, SegOk s := by
+  rw [builtHist_segs]
+  intro s hs
+  simp only [List.mem_cons, List.not_mem_nil, or_false] at hs
+  rcases hs with rfl | rfl <;> exact ⟨fun h => absurd h (by decide), fun _ => ⟨by decide +kernel, by decide⟩⟩
+
+/-- non-vacuity: an element built with `addBluePrint` twice and `addFlags` -/
+def builtEl : Element :=
+  (((({} : Element).addBluePrint (.int 1) builtHist.eval).st.addBluePrint (.int 2) builtHist.eval).st.addFlags (.int 2)
+    [.num 0, .str "T", .num 0, .num 1]).st
+
+/-- non-vacuity: … is `ElBuilt` -/
+theorem builtEl_built : ElBuilt builtEl :=
+  .addFlags _ _ _ (.addBluePrint _ 2 builtHist builtHist_ok (.addBluePrint _ 1 builtHist builtHist_ok .empty))
+
+/-- non-vacuity: `Sequence()` then `setSR(10)` -/
+def builtSeq0 : Sequence := ({} : Sequence).setSR (.num 10)
+/-- non-vacuity: … `addElement(1, …)` -/
+def builtSeq1 : Sequence := (Sequence.addElement builtSeq0 1 builtEl).st
+/-- non-vacuity: … `addElement(2, …)` -/
+def builtSeq2 : Sequence := (Sequence.addElement builtSeq1 2 builtEl).st
+/-- non-vacuity: … amplitudes, offsets and a channel delay -/
+def builtSeq3 : Sequence :=
+  ((((builtSeq2.setChannelAmplitude (.int 1) (.num 2)).setChannelOffset (.int 1) (.num 0)).setChannelAmplitude (.int 2)
+    (.num 1)).setChannelOffset (.int 2) (.num 0)).setChannelDelay (.int 1) (.num 0)
+/-- non-vacuity: … and `setSequencingNumberOfRepetitions(2, 5)` -/
+def builtSeq : Sequence := (builtSeq3.setSequencing 2 (fun q => { q with nrep := 5 })).st
+
+/-- non-vacuity: … is `SeqBuilt` -/
+theorem builtSeq_built : SeqBuilt builtSeq :=
+  .setSequencing _ _ _ (.setChannelDelay _ _ _ (.setChannelOffset _ _ _ (.setChannelAmplitude _ _ _ (.setChannelOffset _ _ _
+    (.setChannelAmplitude _ _ _ (.addElement _ 2 _ (.addElement _ 1 _ (.setSR _ _ .empty) builtEl_built) builtEl_built))))))
+
+/-- the decidable form of the channel conditions of `seqBuilt_ok` -/
+def chanCheck (s : Sequence) (sr : Val) : Bool :=
+  s.data.all (fun pe =>
+    match pe.2 with
+    | .el e => e.chans.all (fun p =>
+        (chanSR p.2).toOption == some sr &&
+        (match Dict.get? s.awgspecs (keyOf p.1 "amplitude") with | some (.val _) => true | _ => false) &&
+        (match Dict.get? s.awgspecs (keyOf p.1 "offset") with | some (.val _) => true | _ => false))
+    | .sub _ => true)
+
+/-- the decidable check implies the channel conditions of `seqBuilt_ok` -/
+theorem chanCheck_spec (s : Sequence) (sr : Val) (h : chanCheck s sr = true) :
+    ∀ pe ∈ s.data, ∀ e, pe.2 = .el e → ∀ p ∈ e.chans, chanSR p.2 = .ok sr ∧
+      (∃ a, Dict.get? s.awgspecs (keyOf p.1 "amplitude") = some (.val a)) ∧
+      (∃ o, Dict.get? s.awgspecs (keyOf p.1 "offset") = some (.val o)) := by
+  intro pe hpe e he p hp
+  unfold chanCheck at h
+  rw [List.all_eq_true] at h
+  have h1 := h pe hpe
+  rw [he] at h1
+  simp only [List.all_eq_true] at h1
+  have h2 := h1 p hp
+  simp only [Bool.and_eq_true, beq_iff_eq] at h2
+  obtain ⟨⟨ha, hb⟩, hc⟩ := h2
+  refine ⟨?_, ?_, ?_⟩
+  · cases hs : chanSR p.2 with
+    | error er => rw [hs] at ha; cases ha
+    | ok v => rw [hs] at ha; simp only [Except.toOption, Option.some.injEq] at ha; rw [ha]
+  · split at hb
+    · rename_i a hga; exact ⟨a, hga⟩
+    · cases hb
+  · split at hc
+    · rename_i a hga; exact ⟨a, hga⟩
+    · cases hc
+
+/-- `seqBuilt_ok` with all remaining hypotheses decidable -/
+theorem seqBuilt_ok_check (s : Sequence) (hb : SeqBuilt s) (sr : Val)
+    (hsr : Dict.get? s.awgspecs "SR" = some (.val sr)) (hch : chanCheck s sr = true) : SeqOk s sr :=
+  seqBuilt_ok s hb sr hsr (chanCheck_spec s sr hch)
+
+example : SeqOk builtSeq (.num 10) :=
+  seqBuilt_ok_check builtSeq builtSeq_built (.num 10) (by decide +kernel) (by decide +kernel)
+
+example : builtSeq.toDesc.toOption.isSome = true ∧ builtSeq.data.length = 2 := by decide +kernel
+
+end builders
 
 /-! ### non-vacuity -/
 
